@@ -1306,11 +1306,66 @@ def run_C13(rep, tier, rng):
             return rng.choice(["()", "usize", "String", "crate::P", "crate::data::Q", "a::b::c::D"])
         k = rng.randint(1, 3)
         return rng.choice(["Vec", "crate::G", "std::collections::HashMap", "Option"]) + "<" + ", ".join(rtype(d - 1) for _ in range(k)) + ">"
+    # type *families*: neighbouring terminals whose payload types are near-duplicates of one another — the same type
+    # with an argument appended or dropped (at any depth), a path lengthened or shortened, one leaf changed, the
+    # arguments permuted — so that any cache, interning or "same as before" shortcut keyed too coarsely shows
+    def split_args(body):
+        out, depth, cur = [], 0, ""
+        for ch in body:
+            if ch == "<":
+                depth += 1
+            elif ch == ">":
+                depth -= 1
+            if ch == "," and depth == 0:
+                out.append(cur.strip())
+                cur = ""
+            else:
+                cur += ch
+        if cur.strip():
+            out.append(cur.strip())
+        return out
+
+    def vary(t):
+        if "<" in t and rng.random() < 0.8:
+            head, body = t.split("<", 1)
+            args = split_args(body[:-1])
+            k = rng.random()
+            if k < 0.3:
+                args = args + [rtype(rng.randint(0, 1))]            # one more argument
+            elif k < 0.5 and len(args) > 1:
+                args = args[:-1]                                      # one fewer
+            elif k < 0.65 and len(args) > 1:
+                args = args[::-1]                                     # permuted
+            elif k < 0.8:
+                j = rng.randrange(len(args))
+                args[j] = vary(args[j])                               # the same, deeper
+            else:
+                head = rng.choice(["crate::" + head, head.split("::")[-1], head + "2"])
+            return head + "<" + ", ".join(args) + ">"
+        if t == "()":
+            return rng.choice(["Vec<()>", "usize"])
+        k = rng.random()
+        if k < 0.4:
+            return t + "::" + rng.choice(["D", "c", "Q"])                 # longer path
+        if k < 0.6 and "::" in t:
+            return t.rsplit("::", 1)[0]                                   # shorter path
+        if k < 0.8:
+            return rng.choice(["Vec", "Option", "crate::G"]) + "<" + t + ">"
+        return t + rng.choice(["2", "x"])
+
     extra = []
-    for _ in range(n // 3):
-        items = gen.random_grammar(rng, payload="usize", derive=False, min_t=1)
-        for v in [d for d in items if d["kind"] == "terminal"][0]["variants"]:
-            v["type"] = rtype(rng.randint(0, 5))
+    for gi in range(n // 3):
+        items = gen.random_grammar(rng, payload="usize", derive=False, min_t=(3 if gi % 2 else 1), max_t=(6 if gi % 2 else 4))
+        vs = [d for d in items if d["kind"] == "terminal"][0]["variants"]
+        if gi % 2:
+            base = rtype(rng.randint(1, 4))
+            for v in vs:
+                v["type"] = base
+                if rng.random() < 0.85:
+                    base = vary(base)
+        else:
+            for v in vs:
+                v["type"] = rtype(rng.randint(0, 5))
         extra.append(items)
     texts = [gen.render(it, rng if rng.random() < 0.5 else None) for it in extra]
     res = kv.run_impl("generate", [kv.hexs(t) for t in texts])
